@@ -566,6 +566,8 @@ class CHECK(Check):
                 res = "notfitted"
             except ValueError:
                 res = "valueerror"
+            except Exception as e:  # noqa: BLE001  (any other exception kind is a result to judge)
+                res = type(e).__name__.lower()
             eng = getattr(est, "backendEngine_", None)
             ni = getattr(est, "n_iter_", None)
             out.append(f"{res}:{Eng.GEN}:{'x' if ni is None else int(ni)}:" + ("x" if eng is None else f"{eng.gen}/{len(eng.rows)}"))
